@@ -172,6 +172,28 @@ func c13ScriptCheck(c c13Script) (fs []rep.Finding) {
 			fs = append(fs, rep.F("Unparse|error", uerr.Error()))
 		} else if !bytes.Equal(*up, raw) {
 			fs = append(fs, rep.F("Unparse|not-identity", fmt.Sprintf("unparse(parse(s)) = %x", []byte(*up))))
+		} else {
+			// the same parser object asked again: the first answer is the caller's (extended and
+			// overwritten here), the second one is a script of its own with the same bytes; then the
+			// parsed opcodes are replaced IN PLACE by those of another script with as many tokens
+			_ = up.AppendOpcodes(bscript.OpNOP, bscript.OpDROP)
+			for i := range *up {
+				(*up)[i] ^= 0xff
+			}
+			if up2, err := p.Unparse(ps); err != nil || !bytes.Equal(*up2, raw) {
+				fs = append(fs, rep.F("Unparse|second-call-differs", "unparsing the same parsed script a second time, after the first result was modified by its owner, does not give the script"))
+			}
+			if len(ps) > 0 {
+				other := bytes.Repeat([]byte{0x51}, len(ps))
+				if po, err := p.Parse(bscript.NewFromBytes(other)); err == nil && len(po) == len(ps) {
+					orig := append(interpreter.ParsedScript(nil), ps...)
+					copy(ps, po)
+					if up3, err := p.Unparse(ps); err != nil || !bytes.Equal(*up3, other) {
+						fs = append(fs, rep.F("Unparse|ignores-in-place-edit", "after the parsed opcodes were replaced in place the parser still unparses the earlier script"))
+					}
+					copy(ps, orig)
+				}
+			}
 		}
 	}
 	if ok && perr != nil {
@@ -447,7 +469,7 @@ func c13PrefixCheck(c c13Prefix) (fs []rep.Finding) {
 
 func init() {
 	p := register(&Prop{ID: "C13", Level: "exploration",
-		Rule: "exhaustive: (scripts) every byte string of length<=2 plus length 3 over a 68-symbol alphabet (quick) / every byte string of length<=3 (thorough), every string of length 4 (thorough: 5) over a 14-symbol control-flow / OP_RETURN / push-header alphabet, and every truncation at every position of 40 longer well-formed scripts, through DecodeParts, Parse/Unparse, hex and JSON against the reference tokenizer; (parts) every list of <=3 items with lengths in {1,2,75,76,255,256,65535,65536} x 3 fill patterns through EncodeParts/PushDataPrefix/DecodeParts/AppendPushDataArray/Parse; (prefix) for every length 1..80, 254..257, 65535, 65536: the data appended to the prefix PushDataPrefix returned, then every prefix and encoding of those lengths checked again; (asm) every sequence (the empty one included) of length<=2 (quick) / <=3 (thorough) over {all 178 non-push opcode bytes, minimal pushes of 2,3,75,76,255,256 bytes, 8 pushes whose hex reads as a decimal number} that is not a data script through ToASM/NewFromASM. distinct_nontrivial = distinct (token count, well-formedness, has-return) classes x length for scripts + distinct part-length vectors + distinct asm strings",
+		Rule: "exhaustive: (scripts) every byte string of length<=2 plus length 3 over a 68-symbol alphabet (quick) / every byte string of length<=3 (thorough), every string of length 4 (thorough: 5) over a 14-symbol control-flow / OP_RETURN / push-header alphabet, and every truncation at every position of 40 longer well-formed scripts, through DecodeParts, Parse/Unparse (unparsed twice by the same parser object with the first result modified in between, and once more after the parsed opcodes were replaced in place), hex and JSON against the reference tokenizer; (parts) every list of <=3 items with lengths in {1,2,75,76,255,256,65535,65536} x 3 fill patterns through EncodeParts/PushDataPrefix/DecodeParts/AppendPushDataArray/Parse; (prefix) for every length 1..80, 254..257, 65535, 65536: the data appended to the prefix PushDataPrefix returned, then every prefix and encoding of those lengths checked again; (asm) every sequence (the empty one included) of length<=2 (quick) / <=3 (thorough) over {all 178 non-push opcode bytes, minimal pushes of 2,3,75,76,255,256 bytes, 8 pushes whose hex reads as a decimal number} that is not a data script through ToASM/NewFromASM. distinct_nontrivial = distinct (token count, well-formedness, has-return) classes x length for scripts + distinct part-length vectors + distinct asm strings",
 	})
 	sS := NewSpace(p, "scripts", c13ScriptCheck)
 	sP := NewSpace(p, "parts", c13PartsCheck)
